@@ -453,7 +453,7 @@ class Gen:
                 if not oneof and r.random() < 0.35:
                     # defaults of input object type only refer to earlier input types (no default cycles)
                     fd = self.lit(desc, ft, 2, [], valid=r.random() > 0.04, max_input=i)
-                    if fd is None or has_var(fd):
+                    if fd is None or has_var(fd) or overflowing(fd):
                         fd = None
                 fields.append([f"f{j}" if r.random() < 0.9 else "a", ft, fd])
             # unique field names
@@ -887,7 +887,7 @@ class Runner:
             dflt = None
             if r.random() < 0.3:
                 dflt = gen.lit(desc, t, 2, [], valid=True)
-                if dflt is not None and has_var(dflt):
+                if dflt is not None and (has_var(dflt) or overflowing(dflt)):
                     dflt = None
             defs.append([name, t, dflt])
             if r.random() < 0.7:
